@@ -199,6 +199,8 @@ pub enum COp {
     Drain,
     Update { limit: Option<(usize, bool)>, wc: Option<usize> }, // (limit, newest?)
     KillWorker(usize),
+    /// the three public queries, one after the other (each waits for its reply)
+    Query,
     Sleep(u64),
     Pause,
 }
@@ -541,6 +543,23 @@ async fn client(sc: Arc<FScn>, w: W, f: ActorRef<FactoryMessage<u64, JobMsg>>, o
                 };
                 obs("obs.update", i64::from(ok), vec![kvi("lim", lim), kvs("mode", mode), kvi("wc", wc.map(|c| c as i64).unwrap_or(-1))]);
             }
+            COp::Query => {
+                for kind in ["q_depth", "q_active", "q_cap"] {
+                    let (tx, rx) = ractor::concurrency::oneshot::<usize>();
+                    let port = RpcReplyPort::from(tx);
+                    let msg = match kind {
+                        "q_depth" => FactoryMessage::GetQueueDepth(port),
+                        "q_active" => FactoryMessage::GetNumActiveWorkers(port),
+                        _ => FactoryMessage::GetAvailableCapacity(port),
+                    };
+                    let ok = f.cast(msg).is_ok();
+                    obs("obs.q_sent", i64::from(ok), vec![kvs("kind", kind)]);
+                    match rx.await {
+                        Ok(v) => obs("obs.q_reply", 1, vec![kvs("kind", kind), kvi("v", v as i64)]),
+                        Err(_) => obs("obs.q_reply", 0, vec![kvs("kind", kind), kvi("v", -1)]),
+                    }
+                }
+            }
             COp::KillWorker(wid) => {
                 let tgt = {
                     let g = w.lock().unwrap();
@@ -557,7 +576,7 @@ async fn client(sc: Arc<FScn>, w: W, f: ActorRef<FactoryMessage<u64, JobMsg>>, o
 
 const FKEEP: &[&str] = &[
     "obs.cfg", "obs.w_new", "obs.w_start", "obs.w_end", "obs.w_kill", "obs.discard", "obs.hook", "obs.submit", "obs.reply", "obs.adjust",
-    "obs.drain", "obs.update", "factory.step", "factory.cast", "guard.cleanup",
+    "obs.drain", "obs.update", "obs.q_sent", "obs.q_reply", "factory.step", "factory.cast", "guard.cleanup",
 ];
 
 fn hash_tables(sc: &FScn) -> (Value, Value) {
@@ -792,6 +811,11 @@ pub fn factory_micro(which: &str) -> Vec<FScn> {
             v.push(s);
         }
     }
+    // every scenario ends with the public queries, once mid-way and once near the horizon
+    for s in v.iter_mut() {
+        let h = s.horizon_ms;
+        s.clients.push(vec![COp::Sleep(12), COp::Query, COp::Sleep(h - 60), COp::Query]);
+    }
     v
 }
 
@@ -847,7 +871,14 @@ pub fn rand_scn(rng: &mut Rng) -> FScn {
             c1.push(COp::Sleep([1u64, 5, 15][rng.below(3)]));
         }
     }
-    s.clients = vec![c0, c1];
+    let mut c2 = vec![];
+    if rng.chance(1, 2) {
+        c2.push(COp::Sleep([0u64, 3, 12, 30][rng.below(4)]));
+        c2.push(COp::Query);
+    }
+    c2.push(COp::Sleep(280));
+    c2.push(COp::Query);
+    s.clients = vec![c0, c1, c2];
     s
 }
 
